@@ -66,6 +66,8 @@ def controls_c18(rep):
     rep.fixture('E.const.write on lock-guarded mutable data: unlocked access flagged', any('bad' in s_ and 'unlocked' in s_ for s_ in fired))
     rep.fixture('E.const.write on lock-guarded mutable data: escaping reference flagged', any('leak' in s_ and 'escape' in s_ for s_ in fired))
     rep.fixture('E.const.write silent on access under a scoped lock', not any('good' in s_ for s_ in fired))
+    rep.fixture('E.const.write on object storage handed to a writer through a smart pointer member', any('through_scratch' in s_ for s_ in fired))
+    rep.fixture('E.const.write silent when the callee takes a pointer to const', not any('reads_scratch' in s_ for s_ in fired))
     # and the fixture's harmless const query must stay quiet
     rep.fixture('E.const.write silent on the harmless fixture query Get_x', not any('Get_x' in s for s in sc.fired.get('E.const.write', [])))
 
